@@ -57,7 +57,7 @@ META = {
         "technique": "property-based testing (rapid), validity-predicate oracle over emitted messages",
     },
     "C03": {
-        "text": "The harness owns the schedule of the window the statement names: build-tag-guarded yield points park stream goroutines between computing and enqueueing a pack and a generated schedule orders the releases, with arbitrary clock skew between the multiplexed streams. Found two defects (enqueue outside the channel lock; tick-only pack closed with its source end time), both fixed. TestC03_Resume covers the resume clause: checkpoints are taken as the server persists them, the manager is closed (pause of the target / process restart) and a new one resumes a drawn subset of the streams in a drawn order; time must not go back across the resume. It found the known finding F-C03-resume-order.",
+        "text": "The harness owns the schedule of the window the statement names: build-tag-guarded yield points park stream goroutines between computing and enqueueing a pack and a generated schedule orders the releases, with arbitrary clock skew between the multiplexed streams. Found two defects (enqueue outside the channel lock; tick-only pack closed with its source end time), both fixed. TestC03_Resume covers the resume clause: checkpoints are taken as the server persists them, the manager is closed (pause of the target / process restart) and a new one resumes a drawn subset of the streams in a drawn order; time must not go back across the resume. It found the known finding F-C03-resume-order. TestC03_SharedPositions: twin packs of collections on one source channel share their position objects, as the real dispatcher hands them out.",
         "design_ref": "DESIGN.md section 4 C03",
         "note": "Only the compute/enqueue window and feed order are controlled; other preemption points are sampled. With the fix in place the lock makes reordered releases impossible, so the schedule now exercises contention (a feed while another pack sits in the window).",
         "technique": "property-based testing (rapid) with harness-controlled schedule (yield hooks), invariant oracle over the output sequence",
